@@ -142,16 +142,23 @@ def run_prologue(stmts, env, tracked):
     m = interp.Machine(env)
     live = set(tracked)
 
+    def names_of(s):
+        try:
+            return s._dd_names
+        except AttributeError:
+            s._dd_names = frozenset(
+                x.id for x in ast.walk(s) if isinstance(x, ast.Name))
+            s._dd_raises = any(
+                isinstance(x, ast.Raise) for x in ast.walk(s))
+            return s._dd_names
+
     def relevant(s):
-        names = {x.id for x in ast.walk(s) if isinstance(x, ast.Name)}
-        return bool(names & live)
+        return not live.isdisjoint(names_of(s))
     for s in stmts:
         if isinstance(s, ast.Expr):
             continue
         if isinstance(s, (ast.Assign, ast.AnnAssign, ast.AugAssign)):
-            if relevant(s) or any(
-                    isinstance(x, ast.Name) and x.id in live
-                    for x in ast.walk(s)):
+            if relevant(s):
                 live |= assigned_names(s)
             else:
                 # a local that does not depend on the arguments: keep it
@@ -163,8 +170,7 @@ def run_prologue(stmts, env, tracked):
                     for nm in assigned_names(s):
                         m.env.pop(nm, None)
                 continue
-        elif not relevant(s) and not any(
-                isinstance(x, ast.Raise) for x in ast.walk(s)):
+        elif not relevant(s) and not s._dd_raises:
             continue
         try:
             m.stmt(s)
